@@ -63,6 +63,11 @@ class MultiIndexConverter(Transformer):
         # Restore original MultiIndexes
         for dim, original_index in reference_indexes.items():
             if dim in X_inverse_transformed.dims:
+                # Entries may have been removed (fully missing samples/features): the remaining
+                # integer labels are the positions in the original index
+                positions = X_inverse_transformed.coords[dim].values
+                if original_index.sizes[dim] != positions.size:
+                    original_index = original_index.isel({dim: positions})
                 X_inverse_transformed.coords[dim] = original_index
                 # Set indexes to original MultiIndexes
                 indexes = [idx for idx in original_index.indexes.keys() if idx != dim]
